@@ -102,7 +102,14 @@ func (tr *Tr) havocStateBy(st *State, why string, callee *ssa.Function) {
 	}
 	for name := range st.C {
 		if strings.HasPrefix(name, "M.") || name == "locks" {
-			tr.set(st, name, f.Fresh("Mhavoc", tr.compSort(name)))
+			old := tr.get(st, name)
+			nh := f.Fresh("Mhavoc", tr.compSort(name))
+			for _, pm := range tr.privateMaps {
+				if strings.HasPrefix(name, pm.prefix) {
+					nh = f.Store(nh, pm.id, f.Select(old, pm.id))
+				}
+			}
+			tr.set(st, name, nh)
 		}
 	}
 	tr.bumpAlloc(st)
